@@ -10,7 +10,8 @@ use crate::record::{cfg_to_json, describe_modes, Batch};
 use serde_json::{json, Value};
 use std::collections::BTreeSet;
 
-fn record_large(b: &mut Batch, trace_id: usize, what: &str, modes: &[RealMode], texts: &[String]) {
+/// `offs[k]`: byte offset at which the scan of `texts[k]` starts (`with_offset`)
+fn record_large(b: &mut Batch, trace_id: usize, what: &str, modes: &[RealMode], texts: &[String], offs: &[usize]) {
     let t0 = std::time::Instant::now();
     let mut charset: BTreeSet<char> = BTreeSet::new();
     for t in texts {
@@ -38,12 +39,12 @@ fn record_large(b: &mut Batch, trace_id: usize, what: &str, modes: &[RealMode], 
             b.events.push(json!({"op": "build", "cfg": ci, "cached": false, "ok": true}));
             w.scanners.push(sc);
             for (k, t) in texts.iter().enumerate() {
-                let obs = w.exec(&json!({"op": "newiter", "sc": 1, "text": t, "off": 0}), &cfg_of, false);
+                let obs = w.exec(&json!({"op": "newiter", "sc": 1, "text": t, "off": offs[k]}), &cfg_of, false);
                 if obs.get("panic").is_some() {
                     b.events.push(json!({"op": "panic", "during": "newiter", "msg": obs["panic"]}));
                     break;
                 }
-                b.events.push(json!({"op": "newiter", "sc": 1, "inp": input_ids[k], "off": 0}));
+                b.events.push(json!({"op": "newiter", "sc": 1, "inp": input_ids[k], "off": offs[k]}));
                 let it = k + 1;
                 loop {
                     let obs = w.exec(&json!({"op": "next", "it": it}), &cfg_of, false);
@@ -109,15 +110,18 @@ pub fn main(args: &[String]) -> i32 {
         text2.push_str("x y xx yb");
         let text3: String = [nf - 1, 0, nf - 2, 1].iter().map(|k| filler(*k)).chain("ya".chars()).collect();
         trace += 1;
-        record_large(&mut b, trace, "65544 keywords: x·[a-h] (types 0..7), 65528 one-character keywords, y·[a-h] (types 65536..65543)", &modes, &[text, text2, text3]);
+        record_large(&mut b, trace, "65544 keywords: x·[a-h] (types 0..7), 65528 one-character keywords, y·[a-h] (types 65536..65543)", &modes, &[text, text2, text3], &[0, 0, 0]);
     }
     if which == "repeat" || which == "both" {
-        let n = 66_000usize;
+        let n: usize = std::env::var("VERIF_LARGE_N").ok().and_then(|v| v.parse().ok()).unwrap_or(66_000);
         let modes = vec![RealMode { name: "REPEAT".into(), pats: vec![RealPat { pattern: format!("a{{{n}}}b"), tt: 7, la: None }], trans: vec![] }];
         let mk = |k: usize| format!("{}b", "a".repeat(k));
-        let texts = vec![mk(n), mk(n - 1), mk(464), mk(465), mk(463), mk(n - 65_536), mk(n + 1)];
+        // a^(n-1) b matches nowhere; scanned from the start that costs n^2/2 steps on both sides
+        // (the code retries at every character, and so does the specification), so the scan
+        // starts 5 characters before the end
+        let texts = vec![mk(n), mk(n - 1), mk(464), mk(465), mk(463), mk(n + 1), mk(2 * n)];
         trace += 1;
-        record_large(&mut b, trace, "a{66000}b", &modes, &texts);
+        record_large(&mut b, trace, &format!("a{{{n}}}b"), &modes, &texts, &[0, n - 5, 0, 0, 0, 0, n - 2]);
     }
     b.write(out);
     println!("{}", json!({"traces": trace, "events": b.events.len(), "build_seconds": b.meta.iter().map(|m| m["build_seconds"].clone()).collect::<Vec<_>>()}));
